@@ -617,11 +617,20 @@ Qed.
 Lemma parse_declaration_spec F p : linv p -> rem p < Z.of_nat F ->
   exists g p', parse_declaration F p = POk (g, p') /\ outcomeS p g p'.
 Proof.
-  intros Hi HF. unfold parse_declaration.
-  destruct (declaration_loop_spec F F (set_buf p [(ptt p, pdata p)])) as (g & p' & Hl & Ho);
-    [exact Hi|discriminate|exact HF|exact HF|].
-  exists g, p'. split; [exact Hl|]. eapply outcome_pre; [|exact Ho].
-  unfold same_ctl. cbn [set_buf pst prevend isstyle perr pl ptt]. repeat split; auto; blia.
+  intros Hi HF. unfold parse_declaration. cbv zeta.
+  set (q0 := set_buf p [(ptt p, pdata p)]).
+  set (q := if is_t (ptt q0) TLeftBracket then set_level q0 (plevel q0 + 1) else q0).
+  assert (Hq : pl q = pl p /\ pst q = pst p /\ prevend q = prevend p /\ isstyle q = isstyle p /\ perr q = perr p /\
+               ptt q = ptt p /\ pbuf q = [(ptt p, pdata p)]).
+  { subst q. destruct (is_t (ptt q0) TLeftBracket); repeat split. }
+  destruct Hq as (Hpl & Hst & Hpe & Hsty & Her & Htt & Hbuf). clearbody q. clear q0.
+  destruct (declaration_loop_spec F F q) as (g & p' & Hl & Ho).
+  - unfold linv. rewrite Hpl. exact Hi.
+  - rewrite Hbuf. discriminate.
+  - unfold rem in *. rewrite Hpl. exact HF.
+  - unfold rem in *. rewrite Hpl. exact HF.
+  - exists g, p'. split; [exact Hl|]. eapply outcome_pre; [|exact Ho].
+    unfold same_ctl. rewrite Hpl, Hst, Hpe, Hsty, Her, Htt. repeat split; auto. lia.
 Qed.
 
 (* --- parseCustomProperty ---------------------------------------------------------------------------------------------- *)
@@ -851,7 +860,8 @@ Proof.
   { apply is_t_eq in E2. destruct Htk3 as (Ha & _).
     destruct (parse_at_rule_spec F q3 Hi3 ltac:(blia) (Ha E2)) as (g & p' & Hl & Ho).
     exists g, p'. split; [exact Hl|]. eapply outcome_pre; [exact Hsc3|]. apply outcomeS_any. exact Ho. }
-  destruct (is_t (ptt q3) TIdent || is_t (ptt q3) TDelim) eqn:E3.
+  destruct (is_t (ptt q3) TIdent || is_t (ptt q3) TDelim
+            || (isstyle q3 && (is_t (ptt q3) THash || is_t (ptt q3) TColon || is_t (ptt q3) TLeftBracket))) eqn:E3.
   { destruct (parse_declaration_spec F q3 Hi3 ltac:(blia)) as (g & p' & Hl & Ho).
     exists g, p'. split; [exact Hl|]. eapply outcome_pre; [exact Hsc3|]. apply outcomeS_any. exact Ho. }
   destruct (is_t (ptt q3) TCustomPropertyName) eqn:E4.
